@@ -6,7 +6,7 @@ set -u
 ID=$1; K=$2; shift 2
 SRC=/tmp/seed_${ID}_${K}
 DST=/verif/seeded/${ID}_${K}
-if [ "${ROUND:-1}" = "2" ]; then SRC=/tmp/seed2_${ID}_${K}; DST=/verif/seeded/${ID}_r2_${K}; fi
+if [ "${ROUND:-1}" != "1" ]; then SRC=/tmp/seed${ROUND}_${ID}_${K}; DST=/verif/seeded/${ID}_r${ROUND}_${K}; fi
 WT=/tmp/wt_eval_$$
 export GOFLAGS=-mod=mod GOPROXY=off GOSUMDB=off GOTOOLCHAIN=local
 [ -f "$SRC/patch.diff" ] || { echo "no patch in $SRC"; exit 2; }
